@@ -2,6 +2,7 @@ package seq
 
 import (
 	"fmt"
+	"strings"
 	"testing"
 
 	age "github.com/craterdog/go-collection-framework/v4/agent"
@@ -86,7 +87,10 @@ func genSetCase(s core.Source) setCase {
 		c.Collator = "reversed"
 	}
 	if c.Collator == "default" {
-		c.Ctor = core.Pick(s, []string{"Make", "MakeWithCollator", "MakeFromArray", "MakeFromSequence"}, "ctor")
+		c.Ctor = core.Pick(s, []string{"Make", "MakeWithCollator", "MakeFromArray", "MakeFromSequence", "MakeFromSequence/reversed-set", "MakeFromSequence/coarse-set"}, "ctor")
+		if c.Elem == "any" || c.Elem == "set" {
+			c.Ctor = core.Pick(s, []string{"Make", "MakeWithCollator", "MakeFromArray", "MakeFromSequence"}, "ctor2")
+		}
 	} else {
 		c.Ctor = "MakeWithCollator"
 	}
@@ -95,7 +99,7 @@ func genSetCase(s core.Source) setCase {
 	if !c.Small {
 		dom = 64
 	}
-	if c.Ctor == "MakeFromArray" || c.Ctor == "MakeFromSequence" {
+	if c.Ctor == "MakeFromArray" || strings.HasPrefix(c.Ctor, "MakeFromSequence") {
 		n := s.Choose(10, "ninit")
 		c.Init = []int{}
 		for i := 0; i < n; i++ {
@@ -348,6 +352,7 @@ func execSet[E any](c setCase, se setElem[E]) (res core.Result) {
 	}
 
 	var set col.SetLike[E]
+	var sourceContent []E
 	p, payload := lib.Call(func() {
 		switch c.Ctor {
 		case "Make":
@@ -358,14 +363,35 @@ func execSet[E any](c setCase, se setElem[E]) (res core.Result) {
 			set = S.MakeFromArray(vals(c.Init))
 		case "MakeFromSequence":
 			set = S.MakeFromSequence(col.List[E](n).MakeFromArray(vals(c.Init)))
+		case "MakeFromSequence/reversed-set", "MakeFromSequence/coarse-set":
+			// the source is a set ordered by another collator; the new set orders by the default one
+			other, _ := collatorFor(se, strings.TrimSuffix(strings.TrimPrefix(c.Ctor, "MakeFromSequence/"), "-set"))
+			source := S.MakeWithCollator(other)
+			for _, v := range vals(c.Init) {
+				source.AddValue(v)
+			}
+			sourceContent = source.AsArray()
+			set = S.MakeFromSequence(source)
 		}
 	})
 	if p {
 		res.Violation = core.Violate("C02/ctor-panicked", "constructor %s panicked: %s", c.Ctor, lib.Short(payload))
 		return res
 	}
-	for _, k := range c.Init {
-		add(code(k))
+	if sourceContent != nil {
+		// the members are what the source set held (given), ordered by the new set's own collator
+		for _, v := range sourceContent {
+			for k := 0; k < se.ncodes; k++ {
+				if se.same(se.val(k), v) {
+					add(k)
+					break
+				}
+			}
+		}
+	} else {
+		for _, k := range c.Init {
+			add(code(k))
+		}
 	}
 	own := set.GetCollator()
 	if own == nil {
